@@ -171,6 +171,9 @@ def native_roundtrip(cfgname, n, lc, val):
         import shutil; shutil.rmtree(d, ignore_errors=True)
 
 def replay(data):
+    if data.get('kind') == 'copy_tree':
+        import c17
+        return c17.native_copy_tree(data['gravity'], data['collision'], data['N'], via=data.get('via'))
     lc = P.Loc(data['label'], (F64 if data['kind'] == 'fp' else intT(data['bits'])), data['field'], tuple(data['recipe']))
     return native_roundtrip(data['cfg'], data['n'], lc, int(data['value']))
 
@@ -268,6 +271,11 @@ def concrete_twin(u):
     return rep
 
 def worker(u):
+    if u.get('mode') == 'tree':
+        import c17
+        rep = c17.run_copy_tree(dict(u, via='file'))
+        for v in rep.violations: v['key'] = v['key'].replace('C17:copy:tree', 'C05:restore:tree')
+        return rep
     if u.get('mode') == 'r3': return run_r3(u)
     if u.get('mode') == 'twin': return concrete_twin(u)
     return run_unit(u)
@@ -282,6 +290,8 @@ def main():
     us += [dict(cfg=c, n=2, mode='r3', steps=1) for c in R3_CFGS]
     if tier == 'thorough': us += [dict(cfg=c, n=3, mode='r3', steps=2) for c in R3_CFGS]
     us += [dict(cfg=c, n=3, mode='twin') for c in cfgs]
+    # derived state that is not persisted: a restored simulation that needs the tree must come back with one (unit shared with C17)
+    for g_, c_ in (('BASIC', 'LINETREE'), ('BASIC', 'TREE'), ('TREE', 'NONE')): us.append(dict(mode='tree', gravity=g_, collision=c_, N=2))
     rep = run_units(us, worker)
     code = finish(PID, tier, rep, t0,
         bounds=dict(configurations=len(us), particles='2' if tier == 'quick' else '2..3', pre_steps='0..2 real steps', continuation_steps='1' if tier == 'quick' else '1..2'),
